@@ -30,17 +30,64 @@ def run(ctx, db, tier):
 
 
 def _block_lambda(db, f, ev):
-    """construct of the returned future<void> from a lambda that parks (item, promise) in the blocked list: returns number of parking calls"""
+    """construct of the returned future<void> from a callable (lambda, or functor object of the library) that parks (item, promise) in the
+    blocked list - itself or through helpers of the class: returns the number of parking calls per path of the callable (the count that
+    deviates from one when its paths disagree)"""
     if ev.k != 'construct' or norm(ev.get('callee')) != 'cocls::future::future':
         return None
     for a in ev.get('args', []):
         p = a.get('opath') or a.get('path') or ''
-        if p.startswith('lambda@'):
-            n = 0
-            for lf in db.instances(p[7:]) if p[7:] in db.inst else []:
-                n = max(n, sum(1 for x in lf.events() if on(x, BLOCKED) and op(x) in ('push', 'emplace')))
-            return n
+        bodies = C09.callable_bodies(db, f, a)
+        if not bodies and not p.startswith('lambda@'):
+            continue
+        key = ('_block_lambda', tuple((g['key'], g.get('inst')) for g in bodies))
+        cache = db.__dict__.setdefault('_c10_cache', {})
+        if key not in cache:
+            counts = []
+            T = htracer(db)
+            for lf in bodies:
+                for tr in C09.feasible([t for t in T.traces(lf) if live(t)]):
+                    counts.append(sum(1 for x in calls(tr) if on(x, BLOCKED) and op(x) in ('push', 'emplace')))
+            cache[key] = 0 if not counts else next((c for c in counts if c != 1), 1)
+        return cache[key]
     return None
+
+
+def _room_test(it):
+    """what a branch says about "the item queue holds fewer items than the limit": True (size() < limit established), False (size() >= limit
+    established), None (says nothing, or only a weaker / different relation).  Either operand order, negations peeled, every spelling the
+    condition went through (named bool local, helper result)"""
+    if it.k != 'branch':
+        return None
+    SIZE = r'call\((?:std::queue|cocls::primitives::\w+(?:<void>)?)::size\)'
+    for p_, v_ in list((it.get('forms') or {}).items()) + [(it.get('opath'), it.get('oval', it.val)), (it.get('path'), it.val)]:
+        if not p_:
+            continue
+        q, neg = C09._peel(p_)
+        sc = split_cmp(q)
+        if not sc:
+            continue
+        a, o, b = sc
+        if re.fullmatch(SIZE, b) and a == 'this->_limit':
+            a, b = b, a
+            o = {'<': '>', '>': '<', '<=': '>=', '>=': '<=', '==': '==', '!=': '!='}[o]
+        if not (re.fullmatch(SIZE, a) and b == 'this->_limit'):
+            continue
+        val = bool(v_) != neg
+        # size OP limit holds iff val
+        if (o == '>=' and not val) or (o == '<' and val):
+            return True
+        if (o == '>=' and val) or (o == '<' and not val):
+            return False
+        return None
+    return None
+
+
+def _is_room_test(it):
+    if it.k != 'branch':
+        return False
+    return any(p_ and re.search(r'::size\) (>=|<|>|<=|==|!=) this->_limit\)|\(this->_limit (>=|<|>|<=|==|!=) call\([\w:<>]*::size\)\)', p_)
+               for p_ in list((it.get('forms') or {}).keys()) + [it.get('opath'), it.get('path')])
 
 
 def push3(ctx, db, rid):
@@ -48,7 +95,7 @@ def push3(ctx, db, rid):
              '(only on an edge where size() >= limit is false), or one entry in the blocked list through the returned future; the push completes immediately (set_value) '
              'exactly when it did not block', floor=1)
     for f, trs in traces_of(db, "cocls::limited_queue::push", per_instance=True):
-        trs = [t for t in trs if live(t)]
+        trs = C09.feasible([t for t in trs if live(t)])
         ctx.paths(rid, len(trs))
         bad = None; cnt = {'hand': 0, 'enq': 0, 'block': 0}
         for tr in trs:
@@ -58,13 +105,8 @@ def push3(ctx, db, rid):
                     ce = cond_event(tr, i)
                     if ce is not None and on(ce, WAITERS) and op(ce) == 'empty' and waiting is None:
                         waiting = (it.val is False)
-                    m = re.fullmatch(r'\(call\((?:std::queue|cocls::primitives::\w+(?:<void>)?)::size\) (>=|<|>|<=|==|!=) this->_limit\)', it.path or '')
-                    if m:
-                        o = m.group(1)
-                        below = (o == '>=' and it.val is False) or (o == '<' and it.val is True)
-                        full = (o == '>=' and it.val is True) or (o == '<' and it.val is False)
-                        if not below and not full:
-                            below = None
+                    if _is_room_test(it):
+                        below = _room_test(it)
             hand = [c for c in calls(tr) if C09._foreign(c)]
             emp = [c for c in calls(tr) if on(c, ITEMS) and op(c) in ('emplace', 'push')]
             blk = [c for c in calls(tr) if _block_lambda(db, f, c) is not None]
@@ -76,7 +118,7 @@ def push3(ctx, db, rid):
             # moment the item is committed to its sink (waiter taken / item enqueued / entry parked) - a pop that runs in such a gap makes
             # room or comes to wait without this push noticing (it then blocks on a queue that has room, or enqueues past a waiting pop)
             tests_ = [i for i, it in enumerate(tr) if it.k == 'branch' and ((cond_event(tr, i) is not None and on(cond_event(tr, i), WAITERS) and op(cond_event(tr, i)) == 'empty') or
-                                                                          re.search(r'::size\) (>=|<|>|<=|==|!=) this->_limit\)', it.path or ''))]
+                                                                          _is_room_test(it))]
             commit_ = ([c for c in calls(tr) if on(c, WAITERS) and op(c) == 'pop'] if hand else emp if emp else blk)
             if tests_ and commit_:
                 ci_ = pos(tr, commit_[0])
@@ -115,13 +157,13 @@ def pop_refill(ctx, db, rid):
     ctx.rule(rid, 'COUNT+ORDER', 'limited_queue::pop: empty edge parks the promise; otherwise the head is delivered once and one item removed, and then - on every path that did not see '
              'the blocked list empty - exactly the oldest blocked item is moved into the item queue (one push from front().first), exactly that entry is removed (one pop) '
              'and exactly its push is completed once, after the lock is released', floor=1)
-    lams = lambdas_of(db, 'cocls::limited_queue::pop')
+    lams = C09.initializer_bodies(db, 'cocls::limited_queue::pop')
     if not lams:
         raise Broken('anchor vanished: lambda of limited_queue::pop')
     T = htracer(db)
     for lf in lams:
         alltr = T.traces(lf)
-        trs = [t for t in alltr if live(t)]
+        trs = C09.feasible([t for t in alltr if live(t)])
         ctx.paths(rid, len(trs))
         bad = None; nref = nno = npark = 0
         void = 'void' in re.findall(r'limited_queue<([^,>]*)', lf.get('inst') or '')[:1]
